@@ -267,3 +267,35 @@ def make_twin(repo, dst, files=None, only_file=None):
     return stats
 
 
+
+
+def make_reformat_twin(repo, dst):
+    """Every Python source re-emitted by ast.unparse (new line numbers, layout,
+    quoting, parenthesisation; comments dropped): same program, other text."""
+    from . import mutants
+    mutants._scratch(dst, repo)
+    stats = {}
+    for p in sorted(glob.glob(os.path.join(dst, "src/pyunicorn/**/*.py"), recursive=True)):
+        src = open(p, encoding="utf-8").read()
+        new = ast.unparse(ast.parse(src)) + "\n"
+        open(p, "w", encoding="utf-8").write(new)
+        stats[os.path.relpath(p, dst)] = 1
+    return stats
+
+
+def make_param_twin(repo, dst):
+    """Every parameter of every Cython function renamed (all call sites in the
+    repository are positional; validated once by rebuilding and running the
+    test-suite on this twin)."""
+    from . import mutants
+    mutants._scratch(dst, repo)
+    stats = {}
+    for p in sorted(glob.glob(os.path.join(dst, "src/pyunicorn/**/*.pyx"), recursive=True)):
+        rel = os.path.relpath(p, dst)
+        fs = [(n, l, set(pr), set()) for (n, l, lo, pr) in pyx_funcs(repo, rel)]
+        src = open(p, encoding="utf-8").read()
+        new, n = rename_locals_pyx(src, fs)
+        if n:
+            open(p, "w", encoding="utf-8").write(new)
+        stats[rel] = n
+    return stats
